@@ -357,6 +357,121 @@ func (c *c09Hist) autoNameScenario(k int) {
 	cb.End()
 }
 
+// c09DeclKinds: deterministic "sole declaration" scenarios. The base name of an imported package is declared exactly ONCE in
+// the whole package, by one kind of declaration, and the package is referenced from inside that declaration's scope
+// (a front end that holds PkgRef objects can build this although Go source cannot say it). The import must be renamed.
+var c09DeclKinds = []string{"value receiver", "pointer receiver", "parameter", "named result", "local variable", "range key", "range value", "type-switch variable", "closure parameter",
+	"package-level var", "package-level const", "package-level type", "package-level func", "package-level var in another file", "variadic parameter", "local const", "local type"}
+
+var c09DeclPkgs = []c09Pkg{{fxCUtil, "Fn", "str"}, {"fmt", "Println", "str"}, {gen.FxA, "Fn", "C"}}
+
+func c09DeclScenarioName(k int) string {
+	p := c09DeclPkgs[k%len(c09DeclPkgs)]
+	return fmt.Sprintf("%s named like the import %s, referenced inside its scope", c09DeclKinds[k/len(c09DeclPkgs)], p.path)
+}
+
+func (c *c09Hist) declScenario(k int) {
+	pkg := c.pkg
+	c.cb = pkg.CB()
+	cb := c.cb
+	p := c09DeclPkgs[k%len(c09DeclPkgs)]
+	kind := c09DeclKinds[k/len(c09DeclPkgs)]
+	name := p.path[strings.LastIndexByte(p.path, '/')+1:]
+	c.file = "f0.go"
+	pkg.SetCurFile(c.file, true)
+	c.log("%s", c09DeclScenarioName(k))
+	tInt := types.Typ[types.Int]
+	ref := func() {
+		c.pushCall(p, true)
+		cb.EndStmt()
+	}
+	use := func(v types.Object) { cb.VarRef(nil).Val(v).Assign(1, 1) }
+	cb.NewVar(types.NewSlice(tInt), "gslice")
+	cb.NewVar(gogen.TyEmptyInterface, "gany")
+	rcv := pkg.NewType("Rcv").InitType(pkg, tInt)
+	var recv *types.Var
+	var params, results []*types.Var
+	variadic := false
+	switch kind {
+	case "value receiver":
+		recv = pkg.NewParam(token.NoPos, name, rcv, false)
+	case "pointer receiver":
+		recv = pkg.NewParam(token.NoPos, name, types.NewPointer(rcv), false)
+	case "parameter":
+		params = append(params, pkg.NewParam(token.NoPos, name, tInt, false))
+	case "variadic parameter":
+		params = append(params, pkg.NewParam(token.NoPos, name, types.NewSlice(tInt), false))
+		variadic = true
+	case "named result":
+		results = append(results, pkg.NewParam(token.NoPos, name, tInt, false))
+	case "package-level var":
+		cb.NewVar(tInt, name)
+	case "package-level const":
+		pkg.NewConstDefs(pkg.Types.Scope()).New(func(cb *gogen.CodeBuilder) int { cb.Val(1); return 1 }, 0, token.NoPos, nil, name)
+	case "package-level type":
+		pkg.NewType(name).InitType(pkg, tInt)
+	case "package-level func":
+		pkg.NewFunc(nil, name, nil, nil, false).BodyStart(pkg).End()
+	case "package-level var in another file":
+		pkg.SetCurFile("f1.go", true)
+		cb.NewVar(tInt, name)
+		pkg.SetCurFile(c.file, true)
+	}
+	var rt *types.Tuple
+	if len(results) > 0 {
+		rt = types.NewTuple(results...)
+	}
+	pkg.NewFunc(recv, "f", types.NewTuple(params...), rt, variadic).BodyStart(pkg)
+	if recv != nil {
+		use(recv)
+	}
+	for _, v := range params {
+		use(v)
+	}
+	switch kind {
+	case "local variable":
+		cb.DefineVarStart(token.NoPos, name).Val(1).EndInit(1)
+		use(cb.Scope().Lookup(name))
+		ref()
+	case "local const":
+		pkg.NewConstDefs(cb.Scope()).New(func(cb *gogen.CodeBuilder) int { cb.Val(1); return 1 }, 0, token.NoPos, nil, name)
+		use(cb.Scope().Lookup(name))
+		ref()
+	case "local type":
+		cb.NewType(name).InitType(pkg, tInt)
+		ref()
+	case "range key", "range value":
+		k, v := name, "vv"
+		if kind == "range value" {
+			k, v = "kk", name
+		}
+		cb.ForRange(k, v).Val(pkg.Types.Scope().Lookup("gslice")).RangeAssignThen(token.NoPos)
+		cb.VarRef(nil).VarRef(nil).Val(cb.Scope().Lookup(k)).Val(cb.Scope().Lookup(v)).Assign(2, 2)
+		ref()
+		cb.End()
+	case "type-switch variable":
+		cb.TypeSwitch(name).Val(pkg.Types.Scope().Lookup("gany")).TypeAssertThen()
+		cb.TypeCase().Typ(tInt).Then()
+		use(cb.Scope().Lookup(name))
+		ref()
+		cb.End()
+		cb.End()
+	case "closure parameter":
+		sig := types.NewSignatureType(nil, nil, nil, types.NewTuple(pkg.NewParam(token.NoPos, name, tInt, false)), nil, false)
+		cb.NewClosureWith(sig).BodyStart(pkg)
+		use(cb.Scope().Lookup(name))
+		ref()
+		cb.End()
+		cb.Val(1).Call(1).EndStmt()
+	default:
+		ref()
+	}
+	if len(results) > 0 {
+		cb.Val(0).Return(1)
+	}
+	cb.End()
+}
+
 // c09Build replays import history i (or reserved-prefix scenario i-c09N) and returns the outcome before writing.
 func c09Build(u *ref.Universe, tier string, seed uint64, i int) (*drive.Outcome, *gogen.Package, *c09Hist) {
 	r := h.NewRand(seed, 9, uint64(i))
@@ -373,7 +488,9 @@ func c09Build(u *ref.Universe, tier string, seed uint64, i int) (*drive.Outcome,
 				o.Status, o.Msg, o.CrashSig = drive.Classify(e, o.Stack)
 			}
 		}()
-		if scenario >= 0 {
+		if scenario >= len(c09AutoNameScenarios) {
+			c.declScenario(scenario - len(c09AutoNameScenarios))
+		} else if scenario >= 0 {
 			c.autoNameScenario(scenario)
 		} else {
 			c.run()
@@ -384,7 +501,7 @@ func c09Build(u *ref.Universe, tier string, seed uint64, i int) (*drive.Outcome,
 }
 
 func c09Run(tier string, seed uint64, i int) []h.Result {
-	if k := i - c09N(tier) - len(c09AutoNameScenarios); k >= 0 {
+	if k := i - c09N(tier) - len(c09AutoNameScenarios) - c09DeclScenarios(); k >= 0 {
 		return c09PositionRun(k)
 	}
 	u := c09Universe()
@@ -393,7 +510,9 @@ func c09Run(tier string, seed uint64, i int) []h.Result {
 	scenario := i - c09N(tier)
 	hist := strings.Join(c.trace, " ")
 	res.Key = fmt.Sprintf("import history seed=%d case=%d #%x", seed, i, h.StrHash(hist))
-	if scenario >= 0 {
+	if scenario >= len(c09AutoNameScenarios) {
+		res.Key = "sole-declaration scenario: " + c09DeclScenarioName(scenario-len(c09AutoNameScenarios))
+	} else if scenario >= 0 {
 		res.Key = "reserved-prefix scenario: " + c09AutoNameScenarios[scenario]
 	}
 	res.Input = hist
@@ -503,6 +622,8 @@ func c09Run(tier string, seed uint64, i int) []h.Result {
 	return []h.Result{res}
 }
 
+func c09DeclScenarios() int { return len(c09DeclKinds) * len(c09DeclPkgs) }
+
 func c09ErrClass(m string) string {
 	switch {
 	case strings.Contains(m, "redeclared"):
@@ -525,11 +646,12 @@ func init() {
 			"type-switch clauses and inline closures; declarations whose names equal import base names or the names the renamer would pick (fmt, util, strings, os, errors, fmt1, util1, util2, _autoGo_1, ...) as package-level var/const/type/func, parameters, named results, locals, " +
 			"range variables, type-switch bindings and closure parameters, before and after the references; references built and discarded with ResetStmt; ForceImport. Oracle per written file (go/parser + go/types with the same importer): the package type-checks; import names are unique in the file " +
 			"and differ from every identifier declared in the package; the multiset of (import path, member) that Go resolves for qualified identifiers equals the multiset the history made from that file; the import set equals referenced ∪ force-imported paths. " +
+			"SOLE-DECLARATION scenarios (both tiers, deterministic): the base name of an imported package is declared exactly once in the whole package by one of 17 kinds of declaration (value / pointer receiver, parameter, variadic parameter, named result, local variable / constant / type, range key / value, type-switch variable, closure parameter, package-level var / const / type / func, package-level var of another file) and the package is referenced inside that scope, for 3 packages. " +
 			"POSITION SWEEP (both tiers, deterministic): ~160 one-declaration programs in which a package is referenced exactly once, from one syntactic position (variadic parameter type, array length, case clause, composite-literal key, constraint term, method expression, defer/go call, select clause ...), alone and next to an equally named package: the import must survive, be uniquely named, and the reference must resolve to it. " +
 			"non-trivial = history referencing at least 2 packages, or a position program that was built; distinct by history text / position",
 		Assume: []string{"go/types Info.Uses (PkgName) on the re-checked output", "import order is not part of the property"},
 		MinNT:  100,
-		Plan:   func(tier string, seed uint64) int { return c09N(tier) + len(c09AutoNameScenarios) + c09PositionCases() },
+		Plan:   func(tier string, seed uint64) int { return c09N(tier) + len(c09AutoNameScenarios) + c09DeclScenarios() + c09PositionCases() },
 		Run:    c09Run,
 	})
 }
